@@ -82,6 +82,9 @@ func expectedServerParams(cfg *ServerCfg, user string) map[string]string {
 	for k, v := range cfg.Params {
 		out[k] = v
 	}
+	for k, v := range cfg.Params2 {
+		out[k] = v
+	}
 	out["server_encoding"] = "UTF8"
 	out["client_encoding"] = "UTF8"
 	out["is_superuser"] = "off"
@@ -360,15 +363,81 @@ func genGlobalParams(r *Rand, c *Case) {
 	if c.Server.Params != nil && r.Chance(1, 8) {
 		c.Server.Params["server_version"] = r.Pick("14.1", "0.0.1-custom")
 	}
+	if c.Server.Params != nil && r.Chance(1, 6) {
+		c.Server.Params2 = map[string]string{}
+		for k, v := range c.Server.Params {
+			c.Server.Params2[k] = v
+		}
+		for n := r.Range(1, 3); n > 0; n-- {
+			c.Server.Params2["y_"+r.Ident(r.Range(1, 6))] = r.Str(r.Intn(10))
+		}
+	}
+}
+
+// genC19Cancel: a middleware derives a cancellable session context; a
+// statement cancels it once its result is complete (a session time limit that
+// expires); the client runs one more query and then sends Terminate.
+func genC19Cancel(r *Rand) *Case {
+	c := &Case{Variant: "terminate-after-session-cancel", Server: ServerCfg{Limit: 4096, Term: r.Pick("ok", "ok", "fail")}, Programs: map[string]*Program{}}
+	nmw := r.Range(1, 3)
+	for i := 0; i < nmw; i++ {
+		c.Server.MW = append(c.Server.MW, MWSpec{})
+	}
+	c.Server.MW[r.Intn(nmw)].Cancel = true
+	col := []ColSpec{{Name: "a", OID: pgwire.OIDText}}
+	c.Programs["c"] = &Program{Stmts: []*StmtProg{{Cols: col, Ops: []Op{{K: "complete", Tag: "C"}, {K: "cancel"}}}}}
+	c.Programs["after"] = &Program{Stmts: []*StmtProg{{Cols: col, Ops: []Op{{K: "complete", Tag: "AFTER"}}}}}
+	steps := []Step{{Msgs: []pgwire.FMsg{startupMsg("u", "d")}}, {Msgs: []pgwire.FMsg{{K: "Q", S1: "c"}}}, {Msgs: []pgwire.FMsg{{K: "Q", S1: "after"}}}, {Msgs: []pgwire.FMsg{{K: "X"}}}}
+	if r.Bool() {
+		steps[3].Msgs = append(steps[3].Msgs, pgwire.FMsg{K: "Q", S1: "after"})
+	}
+	c.Conns = []ConnCase{{Steps: steps, Cuts: genCuts(r)}}
+	return c
+}
+
+// checkC19Cancel: whatever an implementation does with a session whose context
+// has been cancelled - if it still answered the next query completely, it is
+// serving that session, and the Terminate that follows invokes the hook once.
+func checkC19Cancel(x *Exec, c *Case) ([]Violation, bool) {
+	r := x.Run(c)
+	cs := r.Conns[0]
+	t := ParseOut(cs)
+	viol := GrammarViolation("C19", 0, t)
+	ready := 0
+	for _, m := range t.Msgs {
+		if m.Type == 'Z' {
+			ready++
+		}
+	}
+	sentX := false
+	for _, m := range c.Conns[0].FlatMsgs() {
+		if m.K == "X" {
+			sentX = true
+		}
+	}
+	if ready < 3 || !sentX || c.Server.Term == "" || len(c.Conns[0].Faults) > 0 {
+		return viol, false
+	}
+	if n := countKind(cs, "terminate"); n != 1 {
+		viol = append(viol, Violation{Prop: "C19", Rule: "terminate-hook-count", Sig: "terminate-hook-count",
+			Detail: fmt.Sprintf("conn 0: the session answered a query after its context was cancelled, then received Terminate: the terminate hook ran %d times (server output %q)", n, pgwire.Kinds(t.Msgs))})
+	}
+	if cs.Closed == 0 {
+		viol = append(viol, Violation{Prop: "C19", Rule: "terminate-not-closed", Sig: "terminate-not-closed", Detail: "conn 0: the connection was not closed after Terminate"})
+	}
+	return viol, true
 }
 
 func init() {
 	// ------------------------------------------------------------------ C19
 	register(&Prop{
 		ID: "C19", Level: "exploration", QuickS: 20, ThoroughS: 300,
-		Rule:       "seeded server configurations with 0-5 session middlewares (each adds a distinct context value, any one may fail), optional terminate hook (succeeding or failing), with and without authentication, and command histories (simple and extended, errors, Terminate followed by more bytes); every middleware, parser and statement callback records the context it receives (middleware values, client and server parameters, remote address, type map, liveness, whether the previous command's context has been cancelled); judged by the event-order monitor plus the reference model (which predicts the middleware and terminate-hook events); a quarter of the sessions end abruptly instead (failing write, peer vanishing at a byte offset, read error) and the last command's context is sampled once the connection has ended; non-trivial = at least one middleware is registered and at least one command callback ran, or a middleware failed, or a Terminate was sent; distinct = distinct case content hashes",
+		Rule:       "seeded server configurations with 0-5 session middlewares (each adds a distinct context value, any one may fail), optional terminate hook (succeeding or failing), with and without authentication, and command histories (simple and extended, errors, Terminate followed by more bytes); every middleware, parser and statement callback records the context it receives (middleware values, client and server parameters, remote address, type map, liveness, whether the previous command's context has been cancelled); judged by the event-order monitor plus the reference model (which predicts the middleware and terminate-hook events); a quarter of the sessions end abruptly instead (failing write, peer vanishing at a byte offset, read error) and the last command's context is sampled once the connection has ended; variant: a statement cancels the middleware-derived session context, one more query is answered, then Terminate must still run the hook once; non-trivial = at least one middleware is registered and at least one command callback ran, or a middleware failed, or a Terminate was sent; distinct = distinct case content hashes",
 		Components: e1Components, Assumptions: commonAssumptions,
 		Gen: func(r *Rand, tier string) *Case {
+			if r.Chance(1, 25) {
+				return genC19Cancel(r)
+			}
 			c := &Case{Server: ServerCfg{Limit: smallLimit(r)}}
 			nmw := r.PickInt(0, 1, 2, 3, 5)
 			for i := 0; i < nmw; i++ {
@@ -410,6 +479,9 @@ func init() {
 			return c
 		},
 		Check: func(x *Exec, c *Case) ([]Violation, bool) {
+			if c.Variant == "terminate-after-session-cancel" {
+				return checkC19Cancel(x, c)
+			}
 			viol, r, _ := modelCheck("C19", x, c)
 			nt := false
 			for i, cs := range r.Conns {
@@ -435,7 +507,7 @@ func init() {
 	// ------------------------------------------------------------------ C12
 	register(&Prop{
 		ID: "C12", Level: "exploration", QuickS: 25, ThoroughS: 420, Race: true,
-		Rule:        "seeded startup negotiations: startup packets with 1-8 key/value pairs (duplicates, empty values, an empty key in the middle, missing final terminator, missing value), configured global parameter maps (nil, empty, custom keys) and version strings, with and without authentication, CancelRequest as first packet / after an SSLRequest was declined; callbacks read ClientParameters, ServerParameters and AuthenticatedUsername back; E2 share: 2-5 connections of different users connect concurrently to one server sharing one user-supplied map, under seeded schedules and (race shard) under the -race build with the HB-transparent scheduler; mixed-case keys, server_version configured through the map with and without a Version string, 2-4 connections served one after the other by the same server; non-trivial = a session was established and at least one callback read the parameters back, or a cancel/malformed packet was refused; distinct = distinct case content hashes",
+		Rule:        "seeded startup negotiations: startup packets with 1-8 key/value pairs (duplicates, empty values, an empty key in the middle, missing final terminator, missing value), configured global parameter maps (nil, empty, custom keys) and version strings, with and without authentication, CancelRequest as first packet / after an SSLRequest was declined; callbacks read ClientParameters, ServerParameters and AuthenticatedUsername back; E2 share: 2-5 connections of different users connect concurrently to one server sharing one user-supplied map, under seeded schedules and (race shard) under the -race build with the HB-transparent scheduler; mixed-case keys, server_version configured through the map with and without a Version string, 2-4 connections served one after the other by the same server; the GlobalParameters option given twice (both user maps compared with their copies); non-trivial = a session was established and at least one callback read the parameters back, or a cancel/malformed packet was refused; distinct = distinct case content hashes",
 		Components:  append(append([]string{}, e1Components...), "E2 share: seeded scheduler interleaves the connecting users; race shard: -race build, kernel synchronisation hidden from the detector"),
 		Assumptions: commonAssumptions,
 		Gen:         genC12,
